@@ -149,4 +149,17 @@ def runManyG (g : Genome F) : XS F → List (List (Val F)) → List (Option (Val
     let q := runManyG g r.2 rest
     (r.1 :: q.1, q.2)
 
+/-- a team: every member is run on its own interpreter object (`reg_lambda_f_storage<team<T>>` keeps one
+    `reg_lambda_f_storage<T>` – individual + `src_interpreter` – per member) -/
+def teamRunG (gs : List (Genome F)) (xs : List (XS F)) (ex : List (Val F)) :
+    List (Option (Val F) × XS F) :=
+  List.zipWith (fun g x => runG g ex x) gs xs
+
+/-- the team evaluated on a sequence of examples, the members' objects being reused -/
+def teamRunManyG (gs : List (Genome F)) : List (XS F) → List (List (Val F)) → List (List (Option (Val F)))
+  | _, [] => []
+  | xs, ex :: rest =>
+    let r := teamRunG gs xs ex
+    r.map (·.1) :: teamRunManyG gs (r.map (·.2)) rest
+
 end Vita.C01
